@@ -164,7 +164,7 @@ func genC16Decoy(t *rapid.T, nargs int, label string) string {
 		case "dq":
 			pieces = []string{"a", " ", "\"\"", "\\\"", "\\\\", "'", "`", "--", "/*", "#", "é", "PH", "PH", "x "}
 		case "bt":
-			pieces = []string{"a", "b", "'", "\"", "é", "PH", "PH", "c", "_", "-"}
+			pieces = []string{"a", "b", "'", "\"", "é", "PH", "PH", "c", "_", "-", "\\", "\\"}
 		default:
 			pieces = []string{"a", " ", "'", "\"", "`", "é", "PH", "PH", "note", "$"}
 		}
